@@ -38,10 +38,12 @@ def sanitise (u : Bytes) : Bytes := (u.dropWhile isC0Space).filter (fun c => !is
 
 /-- scheme recognition: `i = url.find(':'); if i > 0 and url[0] is an ASCII letter and all of
 url[:i] are scheme characters: scheme, url = url[:i].lower(), url[i+1:]` -/
+def schemeOk (u : Bytes) : Bool :=
+  u.contains 58 && (match before 58 u with | c :: _ => isAlpha c | [] => false) &&
+    (before 58 u).all isSchemeChar
+
 def splitScheme (u : Bytes) : Bytes × Bytes :=
-  let pre := before 58 u
-  if u.contains 58 && (match pre with | c :: _ => isAlpha c | [] => false) && pre.all isSchemeChar
-  then (asciiLower pre, after 58 u) else ([], u)
+  if schemeOk u then (asciiLower (before 58 u), after 58 u) else ([], u)
 
 /-- `_check_bracketed_host`'s regular expression `\Av[a-fA-F0-9]+\..+\Z` (after the `v`) -/
 def vFutureOk (afterV : Bytes) : Bool :=
